@@ -3,6 +3,7 @@ package main
 import (
 	"bytes"
 	"compress/gzip"
+	"context"
 	"crypto/md5"
 	"encoding/base64"
 	"encoding/json"
@@ -284,7 +285,16 @@ func NewEmu(store gcsemu.Store) *Emu {
 }
 
 // do sends one HTTP request through the same handler chain the server registers.
+// ctxByG: the context a scheduled request runs under (so that the scheduler can abandon it the way a
+// client that gives up does); requests of other goroutines run under the background context
+var ctxByG sync.Map
+
 func (e *Emu) do(req *http.Request) (rec *httptest.ResponseRecorder, panicked string) {
+	if v, ok := ctxByG.Load(goid()); ok {
+		if _, q := quietG.Load(goid()); !q {
+			req = req.WithContext(v.(context.Context))
+		}
+	}
 	rec = httptest.NewRecorder()
 	defer func() {
 		if p := recover(); p != nil {
